@@ -34,6 +34,8 @@ pub enum Step {
     OwnerWithdrawAll { res: u8 },
     /// plain deposit of one unit by the owner (creates the vault)
     OwnerDeposit { res: u8 },
+    /// anyone asks the account for its balance of a resource (a read: must not make the resource "held")
+    QueryBalance { res: u8 },
     Restart,
 }
 
@@ -95,6 +97,10 @@ impl World for C39 {
         let mut default_rule = 0u8;
         let mut prefs: BTreeMap<u8, u8> = BTreeMap::new();
         let mut listed: BTreeSet<u8> = BTreeSet::new();
+        // resources the account holds by the history (a positive amount was deposited at some point; an
+        // emptied vault still counts, as the blueprint documents) / may hold (only zero-amount deposits)
+        let mut held: BTreeSet<u8> = btreeset![0u8];
+        let mut maybe_held: BTreeSet<u8> = BTreeSet::new();
         let mut digest = 0u64;
         let mut violation = None;
         let mut n = 0usize;
@@ -122,7 +128,13 @@ impl World for C39 {
                     5..=6 => Step::AddDepositor { badge: rng.below(4) as u8 },
                     7 => Step::RemoveDepositor { badge: rng.below(4) as u8 },
                     8 => Step::OwnerWithdrawAll { res: rng.below(5) as u8 },
-                    9 => Step::OwnerDeposit { res: rng.below(2) as u8 },
+                    9 => {
+                        if rng.chance(1, 2) {
+                            Step::OwnerDeposit { res: rng.below(2) as u8 }
+                        } else {
+                            Step::QueryBalance { res: rng.below(5) as u8 }
+                        }
+                    }
                     10 => Step::Restart,
                     _ => {
                         let method = rng.below(4) as u8;
@@ -292,6 +304,21 @@ impl World for C39 {
                         stats.evaluations += 1;
                         if let Ok(r) = node.execute(&exe, &ExecOpts::default()) {
                             node.commit(&r);
+                            if ok(&r) {
+                                held.insert(1 + ri % 2);
+                            }
+                        }
+                    }
+                }
+                Step::QueryBalance { res: ri } => {
+                    if res.len() < 6 {
+                        continue;
+                    }
+                    let ra = res[ri as usize % 5];
+                    let m = ManifestBuilder::new().lock_fee_from_faucet().call_method(owner.account, ACCOUNT_BALANCE_IDENT, manifest_args!(ra)).build();
+                    if let Some((r, _)) = run_tx(&mut node, m, dep, &mut stats, None) {
+                        if ok(&r) {
+                            stats.bump("query.balance");
                         }
                     }
                 }
@@ -311,10 +338,14 @@ impl World for C39 {
                             None => match default_rule {
                                 0 => true,
                                 1 => false,
-                                _ => ra == XRD || account_vault(&node.db, owner.account, ra).is_some(),
+                                // "already holds": by the history of deposits, not by what the store happens to contain
+                                _ => ra == XRD || held.contains(&(ri % 5)),
                             },
                         }
                     };
+                    // a resource that only ever arrived in zero-amount buckets: the documentation does not say
+                    // whether the account "holds" it - no verdict when the decision hinges on it
+                    let hinges_on_maybe = default_rule == 2 && buckets.iter().any(|(r, _)| prefs.get(&(r % 5)).is_none() && maybe_held.contains(&(r % 5)) && !held.contains(&(r % 5)));
                     let pattern: Vec<bool> = buckets.iter().map(|(r, _)| allowed(*r)).collect();
                     let all_allowed = pattern.iter().all(|x| *x);
                     let named_listed = named.map(|b| listed.contains(&(b % 4)));
@@ -448,7 +479,16 @@ impl World for C39 {
                         continue; // the fault decided the outcome
                     }
                     // zero-amount-only batches: "deposited" and "refunded" are indistinguishable by balances
-                    let comparable = !need_nonzero.is_empty();
+                    let comparable = !need_nonzero.is_empty() && !hinges_on_maybe;
+                    if observed == Expect::Deposited {
+                        for (ri, units) in &buckets {
+                            if *units > 0 {
+                                held.insert(ri % 5);
+                            } else {
+                                maybe_held.insert(ri % 5);
+                            }
+                        }
+                    }
                     if comparable && observed != expect {
                         violation = Some(mk(
                             "c39.deposit_rule_not_enforced",
